@@ -56,13 +56,34 @@ pub struct ConnInfo {
     pub now: u64,
 }
 
+/// What a peer may do to its connection.  A trait so that layers (TLS, CONNECT tunnels) can
+/// interpose between a peer and the kernel's connection control.
+pub trait Ctl {
+    fn now(&self) -> u64;
+    fn conn(&self) -> usize;
+    /// make `data` readable by the client `delay_ns` from now, as one segment
+    fn send_at(&mut self, delay_ns: u64, data: Vec<u8>);
+    fn fin_at(&mut self, delay_ns: u64);
+    fn rst_at(&mut self, delay_ns: u64);
+    fn set_timer(&mut self, delay_ns: u64, token: u64);
+    /// stop consuming what the client writes: the client's send window fills up
+    fn stop_reading(&mut self);
+    fn is_reading(&self) -> bool;
+    /// resume consuming; returns the bytes that had accumulated in the window
+    fn resume_reading(&mut self) -> Vec<u8>;
+    fn set_faults(&mut self, f: ConnFaults);
+    fn count_fault(&mut self, kind: &'static str);
+    /// the bytes on this connection are not reproducible (TLS): keep them out of the event-log hash
+    fn set_opaque(&mut self);
+}
+
 /// Scripted party on the other end of a simulated connection.  Event driven; runs on the
 /// kernel's stack with the kernel lock held and must never block.
 pub trait Peer: Send {
-    fn on_accept(&mut self, _c: &mut ConnCtl) {}
-    fn on_bytes(&mut self, c: &mut ConnCtl, data: &[u8]);
-    fn on_client_eof(&mut self, _c: &mut ConnCtl) {}
-    fn on_timer(&mut self, _c: &mut ConnCtl, _token: u64) {}
+    fn on_accept(&mut self, _c: &mut dyn Ctl) {}
+    fn on_bytes(&mut self, c: &mut dyn Ctl, data: &[u8]);
+    fn on_client_eof(&mut self, _c: &mut dyn Ctl) {}
+    fn on_timer(&mut self, _c: &mut dyn Ctl, _token: u64) {}
     /// downcast support for harness-side inspection after a run
     fn as_any(&mut self) -> &mut dyn Any;
 }
@@ -226,6 +247,7 @@ pub(crate) struct Sock {
     pub read_ops: u64,
     pub write_ops: u64,
     pub client_eof_sent: bool,
+    pub opaque: bool,
 }
 
 pub(crate) struct ChanSt {
@@ -404,7 +426,7 @@ impl State {
         pick
     }
 
-    pub(crate) fn with_peer(&mut self, sock: usize, f: impl FnOnce(&mut dyn Peer, &mut ConnCtl)) {
+    pub(crate) fn with_peer(&mut self, sock: usize, f: impl FnOnce(&mut dyn Peer, &mut dyn Ctl)) {
         if let Some(mut p) = self.socks[sock].peer.take() {
             {
                 let mut ctl = ConnCtl { st: self, sock };
@@ -440,7 +462,8 @@ impl State {
                     return;
                 }
                 let (t, seq) = (self.now, self.next_seq());
-                self.log(usize::MAX, "deliver", sock as u64, hash_bytes(&data) ^ n as u64);
+                let hv = if self.socks[sock].opaque { 0 } else { hash_bytes(&data) ^ n as u64 };
+                self.log(usize::MAX, "deliver", sock as u64, hv);
                 self.socks[sock].rx.push_back(Seg { data, off: 0 });
                 let c = self.socks[sock].conn;
                 self.history.conns[c].delivered += n as u64;
@@ -640,39 +663,36 @@ pub struct ConnCtl<'a> {
     pub(crate) sock: usize,
 }
 
-impl ConnCtl<'_> {
-    pub fn now(&self) -> u64 {
+impl Ctl for ConnCtl<'_> {
+    fn now(&self) -> u64 {
         self.st.now
     }
-    pub fn conn(&self) -> usize {
+    fn conn(&self) -> usize {
         self.st.socks[self.sock].conn
     }
-    /// make `data` readable by the client `delay_ns` from now, as one segment
-    pub fn send_at(&mut self, delay_ns: u64, data: Vec<u8>) {
+    fn send_at(&mut self, delay_ns: u64, data: Vec<u8>) {
         let sock = self.sock;
         self.st.push_timer(delay_ns, Ev::Deliver { sock, data });
     }
-    pub fn fin_at(&mut self, delay_ns: u64) {
+    fn fin_at(&mut self, delay_ns: u64) {
         let sock = self.sock;
         self.st.push_timer(delay_ns, Ev::Fin { sock });
     }
-    pub fn rst_at(&mut self, delay_ns: u64) {
+    fn rst_at(&mut self, delay_ns: u64) {
         let sock = self.sock;
         self.st.push_timer(delay_ns, Ev::Rst { sock });
     }
-    pub fn set_timer(&mut self, delay_ns: u64, token: u64) {
+    fn set_timer(&mut self, delay_ns: u64, token: u64) {
         let sock = self.sock;
         self.st.push_timer(delay_ns, Ev::PeerTimer { sock, token });
     }
-    /// stop consuming what the client writes: the client's send window fills up
-    pub fn stop_reading(&mut self) {
+    fn stop_reading(&mut self) {
         self.st.socks[self.sock].peer_reading = false;
     }
-    pub fn is_reading(&self) -> bool {
+    fn is_reading(&self) -> bool {
         self.st.socks[self.sock].peer_reading
     }
-    /// resume consuming; returns the bytes that had accumulated in the window
-    pub fn resume_reading(&mut self) -> Vec<u8> {
+    fn resume_reading(&mut self) -> Vec<u8> {
         let s = &mut self.st.socks[self.sock];
         s.peer_reading = true;
         let v = std::mem::take(&mut s.pending_to_peer);
@@ -680,14 +700,14 @@ impl ConnCtl<'_> {
         self.st.wake_waiters(&WaitOn::Sock(sock));
         v
     }
-    pub fn set_faults(&mut self, f: ConnFaults) {
+    fn set_faults(&mut self, f: ConnFaults) {
         self.st.socks[self.sock].faults = f;
     }
-    pub fn count_fault(&mut self, kind: &'static str) {
+    fn count_fault(&mut self, kind: &'static str) {
         self.st.history.fault(kind);
     }
-    pub fn client_closed(&self) -> bool {
-        self.st.socks[self.sock].closed
+    fn set_opaque(&mut self) {
+        self.st.socks[self.sock].opaque = true;
     }
 }
 
@@ -1022,6 +1042,7 @@ pub(crate) fn connect(addr: &SocketAddr, timeout_ns: u64) -> std::io::Result<(K,
                 read_ops: 0,
                 write_ops: 0,
                 client_eof_sent: false,
+                opaque: false,
             });
             g.history.connects.push(ConnectRec { addr: *addr, tid: me, seq, t_start, t_end, timeout_ns, outcome: Ok(conn) });
             g.log(me, "connect-ok", conn as u64, 0);
@@ -1043,7 +1064,7 @@ pub(crate) fn sock_read(k: &K, sock: usize, buf: &mut [u8]) -> std::io::Result<u
     let finish = |g: &mut State, res: Result<usize, E>| {
         let (t_out, seq) = (g.now, g.next_seq());
         let (a, b) = match &res {
-            Ok(n) => (0u64, *n as u64),
+            Ok(n) => (0u64, if g.socks[sock].opaque { 0 } else { *n as u64 }),
             Err(k) => (1u64, *k as u64),
         };
         g.log(me, "read", (sock as u64) << 8 | a, b);
@@ -1161,12 +1182,14 @@ pub(crate) fn sock_write(k: &K, sock: usize, buf: &[u8]) -> std::io::Result<usiz
             n = n.min(space);
             s.pending_to_peer.extend_from_slice(&buf[..n]);
             let (t, seq) = (g.now, g.next_seq());
-            g.log(me, "write-buf", sock as u64, hash_bytes(&buf[..n]) ^ n as u64);
+            let hv = if g.socks[sock].opaque { 0 } else { hash_bytes(&buf[..n]) ^ n as u64 };
+            g.log(me, "write-buf", sock as u64, hv);
             g.conn_ev(sock, ConnEv::Write { t, seq, data: buf[..n].to_vec() });
             return Ok(n);
         }
         let (t, seq) = (g.now, g.next_seq());
-        g.log(me, "write", sock as u64, hash_bytes(&buf[..n]) ^ n as u64);
+        let hv = if g.socks[sock].opaque { 0 } else { hash_bytes(&buf[..n]) ^ n as u64 };
+        g.log(me, "write", sock as u64, hv);
         g.conn_ev(sock, ConnEv::Write { t, seq, data: buf[..n].to_vec() });
         let data = &buf[..n];
         g.with_peer(sock, |p, c| p.on_bytes(c, data));
